@@ -834,4 +834,40 @@ theorem C14_unwind_waitthread_recursion_never_returns_partial :
     rw [this, hh] at hK
     cases hK
 
+/-! ### `wait` with a delay that is not due before the next frame (round 4) -/
+
+/-- decidable form of `WaitOK` -/
+def waitOKb (prog : Prog) (mtime scaled : Nat) : Bool :=
+  prog.all (fun code => code.all (fun op => match op with | .wait ms => decide (mtime < scaled + ms) | _ => true))
+
+theorem waitOK_of_b (E : Env) (s : St) (h : waitOKb E.prog s.timer.mtime s.scaled = true) : WaitOK E s := by
+  intro l pc ms hop
+  unfold waitOKb at h
+  rw [List.all_eq_true] at h
+  by_cases hl : l < E.prog.length
+  · have hc := h (E.prog[l]) (List.getElem_mem hl)
+    rw [List.all_eq_true] at hc
+    have e1 : E.prog.getD l [] = E.prog[l] := by simp [List.getD, hl]
+    rw [e1] at hop
+    by_cases hp : pc < (E.prog[l]).length
+    · have e2 : (E.prog[l]).getD pc .done = (E.prog[l])[pc] := by simp [List.getD, hp]
+      rw [e2] at hop
+      have := hc _ (List.getElem_mem hp)
+      rw [hop] at this
+      simpa using this
+    · have e2 : (E.prog[l]).getD pc .done = .done := by simp [List.getD, hp]
+      rw [e2] at hop; cases hop
+  · have e1 : E.prog.getD l [] = [] := by simp [List.getD, hl]
+    rw [e1] at hop; cases hop
+
+/-- the late variant with a sentinel is in the class: label 0 waits 5 ms and then runs away, label 1 is the
+    sentinel (`wait 9`); from the fresh state both delays are not due before the next frame -/
+def exLateN : Env :=
+  { cfg := { prot := true, maxExec := 3, maxDepth := 2 }, prog := [[.wait 5, .nop, .jmp 1], [.wait 9, .done]], inc := fun _ => 1 }
+example : Nest exLateN.prog = true := by decide
+example : WaitOK exLateN {} := waitOK_of_b _ _ (by decide)
+set_option maxRecDepth 100000 in
+example : halted (run exLateN 8 (startCall exLateN {} 0)) = true ∧ (run exLateN 8 (startCall exLateN {} 0)).exc = none ∧
+    (run exLateN 8 (startCall exLateN {} 0)).timer.elems = [(1, 5)] ∧ dueCount (run exLateN 8 (startCall exLateN {} 0)).timer = 0 := by decide
+
 end Morfuse.Unwind
